@@ -25,6 +25,7 @@ package bttest
 //@   ensures result1 == (exists j :: 0 <= j < old(len(f.Columns)) && len(old(f.Columns[j]).Cells) == 0)
 //@   ensures forall j :: 0 <= j < len(f.Columns) ==> exists k :: 0 <= k < old(len(f.Columns)) && f.Columns[j] == old(f.Columns[k])
 //@   ensures forall k :: 0 <= k < old(len(f.Columns)) && len(old(f.Columns[k]).Cells) > 0 ==> exists j :: 0 <= j < len(f.Columns) && f.Columns[j] == old(f.Columns[k])
+//@   ensures old(colsDesc(f.Columns)) ==> colsDesc(f.Columns)
 //@   loop 1 invariant 0 <= wIdx <= idx1 + 1
 //@   loop 1 invariant f.Columns == old(f.Columns)
 //@   loop 1 invariant cap(f.Columns) == 0 ==> sameheap("T:*bigtablepb.Column")
@@ -37,7 +38,7 @@ package bttest
 // Separation of the families of a row: distinct family objects whose column arrays do not share a backing
 // array (rows are trees: they come from proto.Unmarshal / copyRow / getOrCreate*). Without it scrubbing one
 // family could re-arrange the columns of another one.
-//@ spec famSep(fs []*btpb.Family) bool = forall i, j :: 0 <= i < j < len(fs) ==> fs[i] != fs[j] && (obj(fs[i].Columns) != obj(fs[j].Columns) || (len(fs[i].Columns) == 0 && len(fs[j].Columns) == 0))
+//@ spec famSep(fs []*btpb.Family) bool = forall i, j :: 0 <= i < j < len(fs) ==> fs[i] != fs[j] && (obj(fs[i].Columns) != obj(fs[j].Columns) || obj(fs[i].Columns) == 0)
 // the family name is one of the table's column families (a nil map has none; govc's contract-level m[k] does not
 // model the nil map, hence the explicit test)
 //@ spec famKnown(cols map[string]*btapb.ColumnFamily, name string) bool = cols != nil && cols[name] != nil
@@ -63,7 +64,12 @@ package bttest
 //@   ensures result1 == (exists k :: 0 <= k < old(len(r.Families)) && old(famDirty(r.Families[k], cols)))
 //@   ensures forall k :: 0 <= k < old(len(r.Families)) && old(famKeeps(r.Families[k], cols)) ==> exists i :: 0 <= i < len(r.Families) && r.Families[i] == old(r.Families[k])
 //@   ensures result1 || len(r.Families) == old(len(r.Families))
+//@   ensures old(rowDesc(r)) ==> rowDesc(r)
+//@   ensures famSep(r.Families)
 //@   loop 1 invariant 0 <= wIdx <= idx1 + 1
+//@   loop 1 invariant old(rowDesc(r)) ==> forall i :: 0 <= i < wIdx ==> colsDesc(r.Families[i].Columns)
+//@   loop 1 invariant old(rowDesc(r)) ==> forall k :: idx1 < k < len(r.Families) ==> colsDesc(r.Families[k].Columns)
+//@   loop 1 invariant forall i, j :: 0 <= i < j < wIdx ==> r.Families[i] != r.Families[j] && (obj(r.Families[i].Columns) != obj(r.Families[j].Columns) || obj(r.Families[i].Columns) == 0)
 //@   loop 1 invariant r.Families == old(r.Families)
 //@   loop 1 invariant cap(r.Families) == 0 ==> sameheap("T:*bigtablepb.Family")
 //@   loop 1 invariant forall k :: idx1 < k < len(r.Families) ==> r.Families[k] == old(r.Families[k])
